@@ -285,6 +285,21 @@ func searchStrKey(p *binary.BinaryProtocol, key string, keyType proto.Type, mapF
 	return start, nil
 }
 
+// errBehavior tells the error code of a failed search: the search functions return ERROR nodes as well as the
+// errors of the binary protocol
+func errBehavior(err error) meta.ErrCode {
+	switch v := err.(type) {
+	case Node:
+		return v.ErrCode().Behavior()
+	case Value:
+		return v.ErrCode().Behavior()
+	case meta.Error:
+		return v.Code.Behavior()
+	default:
+		return meta.ErrRead
+	}
+}
+
 func (self Value) GetByPath(pathes ...Path) Value {
 	value, _ := self.getByPath(pathes...)
 	return value
@@ -425,8 +440,7 @@ func (self Value) getByPath(pathes ...Path) (Value, []int) {
 			if i == len(pathes)-1 && err == errNotFound {
 				return Value{errNotFoundLast(unsafe.Pointer(uintptr(self.v)+uintptr(start)), tt), nil, false}, address
 			}
-			en := err.(Node)
-			return errValue(en.ErrCode().Behavior(), "invalid value node.", err), address
+			return errValue(errBehavior(err), "invalid value node.", err), address
 		}
 		// if not the last one, it must be a complex node, so need to skip tag
 		// NOTICE: an unpacked list is searched from the tag of its first element
@@ -444,16 +458,14 @@ func (self Value) getByPath(pathes ...Path) (Value, []int) {
 		kt = desc.Key().Type()
 		et = desc.Elem().Type()
 		if s, err := p.SkipAllElementsWithType(desc.BaseId(), desc.IsPacked(), desc.Elem().WireType()); err != nil {
-			en := err.(Node)
-			return errValue(en.ErrCode().Behavior(), "invalid map node.", err), address
+			return errValue(errBehavior(err), "invalid map node.", err), address
 		} else {
 			size = s
 		}
 	case proto.LIST:
 		et = desc.Elem().Type()
 		if s, err := p.SkipAllElementsWithType(desc.BaseId(), desc.IsPacked(), desc.Elem().WireType()); err != nil {
-			en := err.(Node)
-			return errValue(en.ErrCode().Behavior(), "invalid list node.", err), address
+			return errValue(errBehavior(err), "invalid list node.", err), address
 		} else {
 			size = s
 		}
